@@ -18,18 +18,18 @@ CHECKS = {
  'C07': dict(cat='model_checking', engine='HIST',
    technique='explicit-state BFS over operation histories replayed on real TrajectoryStore objects, deduplicated by canonical state, vs a Python list model; plus undeduplicated enumeration',
    text='All histories of create/add/read/iterate/sync/close/append/open/save with two cache sizes up to the depth bound are replayed on the real store; every step result and a full observation (len, every index, one past the end, iteration, reopen) is compared with a list model in every reached state.',
-   note='bounds: <=3 (thorough 4) trajectories, depth 7 (10); netCDF4/HDF5 and cachetools trusted; dedup key = model state + cache residency order', ref='DESIGN.md §4 C07'),
+   note='bounds: <=4 (thorough 6) trajectories, depth 10 (14), all histories to depth 4 (5) without deduplication, base+associated layout to depth 8 (11); netCDF4/HDF5 and cachetools trusted; dedup key = model state + generic summary of all store attributes, taken before the observation', ref='DESIGN.md §4 C07'),
  'C08': dict(cat='model_checking', engine='HIST',
    technique='explicit-state BFS over histories of identified stores (non-monotone id order, lookups before sync, append sessions, in-memory + save) vs a dict model',
    text='Same explorer as C07 on identified trajectories with lookups interleaved; a second exploration on unidentified files checks that mixed identification is refused; merged-store lookups are covered by C09.',
-   note='bounds as C07; identifiers distinct', ref='DESIGN.md §4 C08'),
+   note='bounds: <=4 (6) trajectories, depth 9 (13); identifiers distinct and in non-monotone order; also in-memory stores + save, base+associated layout, and every identified merge of the C09 lattice', ref='DESIGN.md §4 C08'),
  'C09': dict(cat='exploration', engine='BEX',
    technique='exhaustive enumeration of ordered size tuples x id-assignment x list/pattern (+associated stores, refusal matrix), merged directory compared item by item with Python list concatenation',
    text='Every partition shape within the bound is merged with the real code and the opened merged store is compared with the concatenation model (len, every index, seams, one past the end, iteration, get for every id).',
-   note='<=3 stores of <=3 (thorough: 4x4) trajectories; 3-point trajectories', ref='DESIGN.md §4 C09'),
+   note='<=3 stores of <=3 (thorough: 4x4) trajectories; file-name orders, numbered ranges with decoys, unpadded >10-part patterns, re-merge to the same path; 3-point trajectories', ref='DESIGN.md §4 C09'),
  'C10': dict(cat='fault_enumeration', engine='FAULT',
    technique='enumeration of every intercepted file-system step of a merge x {fail-before, fail-after, torn metadata write} with recovery check; BFS over add sequences with every kind of rejected addition; refusal/retry matrix',
-   text='Every (step, mode) fault point of each merge scenario is injected on the real code and the on-disk result is checked for "nothing lost / never announced complete while incomplete / retry works"; every rejected-add kind at every position is explored by the history explorer against the list model.',
+   text='Every (step, mode) fault point of each merge scenario is injected on the real code and the on-disk result is checked for "nothing lost / never announced complete while incomplete / retry works"; every rejected-add kind (missing value, other field sets, identifier inconsistency, species outside the file) at every position is explored against the list model; every merge refusal rule is retried after correcting the cause.',
    note='faults at the Python/file-system call boundary only; OS-level torn HDF5 writes out of scope', ref='DESIGN.md §4 C10'),
  'C15': dict(cat='exploration', engine='BEX',
    technique='bounded-exhaustive enumeration of location-pair lattice x symbolic distances x step splits x overstep flag, multi-waypoint tracks, same-object sequences, all airport pairs; oracle = geodesic primitive + haversine cross-check',
@@ -38,13 +38,13 @@ CHECKS = {
 
  'C20': dict(cat='model_checking', engine='SCHED',
    technique='stateless exploration of all thread schedules up to a preemption bound (iterative context bounding) of real threads under a sys.settrace-driven deterministic scheduler, opcode granularity in the constructor',
-   text='Every schedule of two (thorough: three) real threads constructing a first store with at most 1 (thorough: 2-3) preemptions is executed on the real constructor; scheduling points at every line of store.py and every bytecode of TrajectoryStore.__init__; invariant: at most one owner thread, losers get RuntimeError, no deadlock; sequential orders included.',
+   text='Every schedule of two (thorough: three) real threads constructing a first store with at most 1 (thorough: 2-3) preemptions is executed on the real constructor; scheduling points at every line of store.py and every bytecode of TrajectoryStore.__init__; invariant: at most one owner thread, losers get RuntimeError, no deadlock; plus every sequence of <=2 (3) owner-thread operations (incl. failing opens and subclass instances) followed by an attempt from another thread.',
    note='CPython tracing semantics trusted; bound = preemptions, executions run to completion; locks replaced by cooperative wrappers', ref='DESIGN.md §4 C20'),
 
  'C17': dict(cat='model_checking', engine='HIST',
    technique='enumeration of all sequences of successful/failing flights on one real builder instance to a depth bound (undeduplicated) plus BFS deduplicated by a fingerprint of the builder attributes; differential oracle vs brand-new builder',
    text='Every sequence of the event alphabet (valid missions, explicit starting mass, unknown airports, airport above cruise level, out-of-envelope mass, weather variants) up to the depth bound is flown on one builder per option set; each flight must be bit-identical to a fresh builder and each refusal must carry the original reason.',
-   note='50-point phases; depth 2-3 (thorough 3-4) undeduplicated, BFS to depth 3 (6); shipped performance model', ref='DESIGN.md §4 C17'),
+   note='50-point phases; depth 2-3 (thorough 3-4) undeduplicated, BFS to depth 3 (6); three performance models, iteration / low-heating-value / weather builders', ref='DESIGN.md §4 C17'),
 
  'C01': dict(cat='exploration', engine='BEX',
    technique='bounded-exhaustive enumeration of trajectory shapes x all phase windows x all zero/positive burn patterns x fuels x LTO/APU/EDB data x classes x configuration spine, full supported-option product, back-to-back pairs on shared objects; independent re-summation oracle',
